@@ -124,6 +124,15 @@ func cellValue(v ssa.Value) ssa.Value {
 			return v
 		}
 		sts, zero := reachingStores(a, u)
+		if zero && len(sts) == 0 {
+			// no store reaches this read: the variable still holds its zero value (a named error result read at the final
+			// `return err` of a function whose only assignment to it is followed by its own return)
+			switch a.Type().(*types.Pointer).Elem().Underlying().(type) {
+			case *types.Pointer, *types.Interface, *types.Slice, *types.Map, *types.Chan, *types.Signature:
+				return ssa.NewConst(nil, a.Type().(*types.Pointer).Elem())
+			}
+			return v
+		}
 		if zero || len(sts) != 1 {
 			return v
 		}
